@@ -54,6 +54,33 @@ def impl_of(api):
     raise symrun.Unsupported("implementation of %s not found" % api.__name__)
 
 
+def helper_constants(t):
+    """(Q, P) as supplied by the package's own helper get_is_power_of_two_constants: the helper is written for tracing
+    contexts, so it is traced, rewritten for the NumPy target and evaluated (a closed expression per format)."""
+    import warnings
+
+    import functional_algorithms as fa
+    import functional_algorithms.floating_point_algorithms as F
+
+    def mk(i):
+        def f(ctx, x: float):
+            largest = ctx.constant("largest", x).reference("largest")
+            return F.get_is_power_of_two_constants(ctx, largest)[i]
+
+        return f
+
+    out = []
+    for i in (0, 1):
+        f = mk(i)
+
+        with warnings.catch_warnings():
+            warnings.simplefilter("ignore")
+            ctx = fa.Context(paths=[fa.algorithms])
+            g = ctx.trace(f, t).rewrite(fa.targets.numpy, fa.rewrite)
+            out.append(t(fa.targets.numpy.as_function(g)(t(1))))
+    return tuple(out)
+
+
 def build(tier):
     import functional_algorithms.floating_point_algorithms as F
 
@@ -110,20 +137,29 @@ def build(tier):
                 rep.add(core.smt(base + "/is-nextafter", PROP, vc(p, r == wantf, extra_hyp=pre), functions=fn, text="result = the float whose pattern is bits(x) +- 1, for normal x with a normal neighbour", budget_s=(1500 if cl else 2400) if mulpath else 300, claimed=cl, backend="z3+cvc5:15" if mulpath else "z3", meta=dict(fn=fname, t=tn)))
         # ---- is_power_of_two
         lo, hi = POW2_DOMAIN[t]
-        for invert in (False, True):
-            fn = ("floating_point_algorithms.is_power_of_two",)
-            rep.under_contract(fn[0], "exact on the documented domain")
+        try:
+            hQ, hP = helper_constants(t)
+        except Exception:
+            hQ = hP = None
+            rep.add(core.decided("C11/get_is_power_of_two_constants/%s/engine" % tn, PROP, core.ERROR, functions=("floating_point_algorithms.get_is_power_of_two_constants",), text=traceback.format_exc()[-800:]))
+        for invert, consts in ((False, "default"), (True, "default"), (False, "helper")):
+            fn = ("floating_point_algorithms.is_power_of_two",) + (("floating_point_algorithms.get_is_power_of_two_constants",) if consts == "helper" else ())
+            rep.under_contract(fn[-1], "exact on the documented domain" if consts == "default" else "supplies (Q, P) with which is_power_of_two is exact")
+            if consts == "helper" and hQ is None:
+                continue
 
-            def run(e, t=t, x=x, invert=invert):
+            def run(e, t=t, x=x, invert=invert, consts=consts, hQ=hQ, hP=hP):
+                if consts == "helper":
+                    return impl_of(F.is_power_of_two)(SymCtx(t), t, SymFP(x, t), Q=hQ, P=hP, invert=invert)
                 return impl_of(F.is_power_of_two)(SymCtx(t), t, SymFP(x, t), invert=invert)
 
             try:
                 paths = explore(run, int_width=64)
             except Exception:
-                rep.add(core.decided("C11/is_power_of_two/%s/invert=%s/engine" % (tn, invert), PROP, core.ERROR, functions=fn, text=traceback.format_exc()[-800:]))
+                rep.add(core.decided("C11/is_power_of_two/%s/invert=%s/%s/engine" % (tn, invert, consts), PROP, core.ERROR, functions=fn, text=traceback.format_exc()[-800:]))
                 continue
             for p in paths:
-                base = "C11/floating_point_algorithms.is_power_of_two/%s/invert=%s/path=%s" % (tn, invert, p.sig())
+                base = "C11/floating_point_algorithms.is_power_of_two%s/%s/invert=%s/path=%s" % ("[constants of get_is_power_of_two_constants]" if consts == "helper" else "", tn, invert, p.sig())
                 res = p.result
                 if p.exc is not None or not isinstance(res, (SymBool, bool, numpy.bool_)):
                     rep.add(core.decided(base + "/returns-bool", PROP, False, functions=fn, text="raised / returned %r" % (p.exc or type(res),)))
@@ -135,7 +171,7 @@ def build(tier):
                 frac = z3.Extract(sb - 2, 0, bits)
                 ispow2 = z3.If(z3.fpIsSubnormal(x), z3.And(frac != 0, (frac & (frac - 1)) == 0), z3.And(z3.fpIsNormal(x), frac == 0))
                 goal = rv == (z3.Not(ispow2) if invert else ispow2)
-                rep.add(core.smt(base + "/exact", PROP, vc(p, goal, extra_hyp=dom), functions=fn, text="answer == (|x| is a power of two) for 2**%d <= |x| < 2**%d" % (lo, hi), budget_s=300, meta=dict(fn="is_power_of_two", t=tn, invert=invert)))
+                rep.add(core.smt(base + "/exact", PROP, vc(p, goal, extra_hyp=dom), functions=fn, text="answer == (|x| is a power of two) for 2**%d <= |x| < 2**%d" % (lo, hi), budget_s=300, meta=dict(fn="is_power_of_two", t=tn, invert=invert, consts=consts)))
                 s = z3.Solver()
                 for c in dom + p.pc:
                     s.add(c)
@@ -194,7 +230,12 @@ def native_replay(o):
             want = numpy.nextafter(x, t(numpy.inf if up else -numpy.inf))
             info.update(got=repr(got), want=repr(want), replayed=bool(got != want))
         elif meta["fn"] == "is_power_of_two":
-            got = F.is_power_of_two(ctx, x, invert=meta["invert"])
+            if meta.get("consts") == "helper":
+                hQ, hP = helper_constants(t)
+                got = F.is_power_of_two(ctx, x, Q=hQ, P=hP, invert=meta["invert"])
+                info.update(Q=repr(hQ), P=repr(hP), witness_class="is_power_of_two with helper constants " + meta["t"])
+            else:
+                got = F.is_power_of_two(ctx, x, invert=meta["invert"])
             mant, _ = numpy.frexp(x)
             truth = abs(mant) == 0.5
             info.update(got=repr(got), truth=bool(truth), replayed=bool(bool(got) != (not truth if meta["invert"] else truth)))
